@@ -146,7 +146,7 @@ pub fn stages(ctx: &Ctx) -> Vec<Stage> {
         let cfg = Cfg { t0: 0.5, t1: 0.5 + dt_max * 45.0, dt_min: dt_max * 1e-7, dt_max, tol };
         run_case(rep, solver, &prob, &cfg, if k % 2 == 0 { DimMode::Dynamic } else { DimMode::Static });
     }));
-    let n = ctx.tier.pick(1_800, 90_000);
+    let n = ctx.tier.pick(6_000, 120_000);
     st.push(Stage::new("random", n, move |i, rep| {
         let mut rng = Rng::for_case(seed, "c02-random", i);
         let solver = Solver::ADAPTIVE[(i % 6) as usize];
